@@ -33,11 +33,12 @@ omit [DecidableEq N] in
     table is then the pclntab's entries at `text address + offset` (mod 2^64), the symbol list is the ELF symbol
     table or empty when there is none. -/
 theorem load_ok_iff (f : File N) (T : Table N) :
-    load f = .ok T ↔ f.elfOk = true ∧ ∃ ts es, f.text = some ts ∧ f.pcln = some (some es) ∧
+    load f = .ok T ↔ f.openOk = true ∧ f.elfOk = true ∧ ∃ ts es, f.text = some ts ∧ f.pcln = some (some es) ∧
       T.funcs = es.map (fun e => (e.1, ts + e.2)) ∧ T.syms = f.symtab.getD [] := by
   cases T with
   | mk tf tsy =>
   unfold load
+  cases f.openOk <;> simp
   cases f.elfOk <;> simp
   cases f.text <;> simp
   cases hp : f.pcln with
@@ -54,11 +55,14 @@ omit [DecidableEq N] in
 /-- every way the table cannot be read is an error, and which one -/
 theorem load_error_iff (f : File N) (e : Err) :
     load f = .error e ↔
-      (f.elfOk = false ∧ e = .elf) ∨
-      (f.elfOk = true ∧ f.text = none ∧ e = .noText) ∨
-      (f.elfOk = true ∧ f.text ≠ none ∧ f.pcln = none ∧ e = .noPcln) ∨
-      (f.elfOk = true ∧ f.text ≠ none ∧ f.pcln = some none ∧ e = .pclnData) := by
+      (f.openOk = false ∧ e = .open) ∨
+      (f.openOk = true ∧ f.elfOk = false ∧ e = .elf) ∨
+      (f.openOk = true ∧ f.elfOk = true ∧ f.text = none ∧ e = .noText) ∨
+      (f.openOk = true ∧ f.elfOk = true ∧ f.text ≠ none ∧ f.pcln = none ∧ e = .noPcln) ∨
+      (f.openOk = true ∧ f.elfOk = true ∧ f.text ≠ none ∧ f.pcln = some none ∧ e = .pclnData) := by
   unfold load
+  cases f.openOk <;> simp
+  · exact eq_comm
   cases f.elfOk <;> simp
   · exact eq_comm
   cases f.text <;> simp
@@ -79,9 +83,17 @@ theorem unreadable_is_error (env : Env N) (e : Err) (h : load env.file = .error 
   cases op <;> simp [spec, funcOf, varOf, funcIn, varIn, h, resOf]
 
 /-- position-independent builds: the linker emits no section called `.gopclntab`; every lookup is an error -/
-theorem pie_is_error (env : Env N) (ts : Addr) (h1 : env.file.elfOk = true) (h2 : env.file.text = some ts)
-    (h3 : env.file.pcln = none) (pre : List (Op N)) (op : Op N) : resAfter env pre op = .err .noPcln :=
-  unreadable_is_error env .noPcln ((load_error_iff _ _).2 (Or.inr (Or.inr (Or.inl ⟨h1, by simp [h2], h3, rfl⟩)))) pre op
+theorem pie_is_error (env : Env N) (ts : Addr) (h0 : env.file.openOk = true) (h1 : env.file.elfOk = true)
+    (h2 : env.file.text = some ts) (h3 : env.file.pcln = none) (pre : List (Op N)) (op : Op N) :
+    resAfter env pre op = .err .noPcln :=
+  unreadable_is_error env .noPcln
+    ((load_error_iff _ _).2 (Or.inr (Or.inr (Or.inr (Or.inl ⟨h0, h1, by simp [h2], h3, rfl⟩))))) pre op
+
+/-- the process' own executable file cannot be opened (deleted, replaced by nothing, no permission): every lookup is
+    that error — whatever `argv[0]` or any other file says, no table is consulted and no address is returned -/
+theorem exe_gone_is_error (env : Env N) (h : env.file.openOk = false) (pre : List (Op N)) (op : Op N) :
+    resAfter env pre op = .err .open :=
+  unreadable_is_error env .open ((load_error_iff _ _).2 (Or.inl ⟨h, rfl⟩)) pre op
 
 /-- stripped builds (no ELF symbol table): functions still resolve, every variable lookup is an error -/
 theorem stripped_vars_error (env : Env N) (T : Table N) (h : load env.file = .ok T) (hs : env.file.symtab = none)
@@ -225,6 +237,33 @@ theorem run_pointwise (env : Env N) (ops : List (Op N)) :
   intro op _
   rw [resAfter_eq]
 
+/-- **concurrent first use**: whatever the goroutines are, whatever each of them calls and in whatever order the
+    calls are scheduled (first lookups racing included), every call returns what it returns alone in a fresh process;
+    so all per-call theorems hold for every call of every goroutine.  (Atomicity of a call with respect to the
+    alignment state is `sync.Once`'s guarantee, see `Sym.runSched`; it is trusted, and observed by the concurrent
+    lane of the check.) -/
+theorem conc_any_schedule (env : Env N) (threads : List (List (Op N))) (sched : List Nat) :
+    ∀ x ∈ runSched env {} threads sched, x.2 = resAfter env [] x.1 := by
+  suffices h : ∀ (sched : List Nat) (s : St N) (threads : List (List (Op N))), Inv env s →
+      ∀ x ∈ runSched env s threads sched, x.2 = spec env x.1 by
+    intro x hx
+    rw [resAfter_eq]
+    exact h sched {} threads (inv_init env) x hx
+  intro sched
+  induction sched with
+  | nil => intro s threads _ x hx; simp [runSched] at hx
+  | cons t sched ih =>
+    intro s threads hs x hx
+    unfold runSched at hx
+    split at hx
+    · rename_i op rest _
+      obtain ⟨h1, h2⟩ := step_spec hs op
+      simp only [List.mem_cons] at hx
+      rcases hx with rfl | hx
+      · exact h2
+      · exact ih _ _ h1 x hx
+    · exact ih s threads hs x hx
+
 /-! ## the hypotheses are satisfiable, non-trivially -/
 
 section Examples
@@ -255,6 +294,14 @@ example : (run exEnv {} [.findFunc "p.", .findFunc "p.ff", .findFunc "P.f", .fin
 -- position independent build: no `.gopclntab` section
 example : (run { exEnv with file := { exFile with pcln := none } } {} [.findFunc "p.g", .findVar "p.v", .expose "p.g"]).2 =
     [.err .noPcln, .err .noPcln, .err .noPcln] := by decide
+-- the executable file is gone
+example : (run { exEnv with file := { exFile with openOk := false } } {} [.findFunc "p.g", .findVar "p.v", .expose "p.g"]).2 =
+    [.err .open, .err .open, .err .open] := by decide
+-- three goroutines racing on their first lookups, one of the schedules
+-- (executed: g2 findVar p.v, g0 expose p.g, g1 findFunc p.f, g0 findVar p.v, g2 findFunc "p.")
+example : (runSched exEnv {} [[.expose "p.g", .findVar "p.v"], [.findFunc "p.f"], [.findVar "p.v", .findFunc "p."]]
+      [2, 0, 1, 1, 0, 2, 2]).map Prod.snd =
+    [.ok 0x4ff008#64, .ok 0x401180#64, .ok 0x401100#64, .ok 0x4ff008#64, .err .noFunc] := by decide
 -- stripped build
 example : (run { exEnv with file := { exFile with symtab := none } } {} [.findFunc "p.g", .findVar "p.v"]).2 =
     [.ok 0x401180#64, .err .noVar] := by decide
